@@ -973,7 +973,7 @@ func (a *apiSim) c16() {
 	for q := 0; q < nq; q++ {
 		var method, path, route string
 		var body []byte
-		switch t.Pick([]int{10, 10, 14, 12, 14, 12, 10, 8, 5, 5}, "route") {
+		switch t.Pick([]int{10, 10, 14, 12, 14, 12, 10, 8, 5, 5, 6}, "route") {
 		case 0:
 			route, method, path = "GET /chain/header/:hash", "GET", "/api/v1/chain/header/"+url.PathEscape(someHash())
 		case 1:
@@ -1031,6 +1031,14 @@ func (a *apiSim) c16() {
 			}
 		case 9:
 			route, method, path = "DELETE /access/:token", "DELETE", "/api/v1/access/"+url.PathEscape(someHash())
+		case 10:
+			rs := [][2]string{{"GET", "/api/v1/access"}, {"POST", "/api/v1/access"}, {"GET", "/api/v1/network/peer"}, {"GET", "/api/v1/network/peer/count"}, {"GET", "/api/v1/chain/tip"}, {"GET", "/api/v1/chain/tip/longest"}}
+			k := rs[t.Draw(len(rs), "plain-route")]
+			method, path = k[0], k[1]
+			route = method + " " + strings.TrimPrefix(path, "/api/v1")
+			if method == "POST" {
+				body = bodies("{}")
+			}
 		}
 		panBefore := w.Sniffer.panics.Load()
 		var code int
